@@ -924,3 +924,23 @@ def family(prog, body, depth=3):
         for ch in prog.children(body):
             out.extend(family(prog, ch, depth - 1))
     return out
+
+
+def value_arms(ctx, body, sym, e, at_block):
+    """The (guards, expression) pairs a returned / stored value stands for: when it is a variable assigned in several arms and used
+    once after the join (`let next = match .. {..}; self.last = Some(next); next`), one pair per assignment with the guards of THAT
+    assignment; otherwise the value with the guards of its use site."""
+    if e[0] == "var":
+        name = e[1]
+        locs = [int(name[1:])] if name.startswith("_") and name[1:].isdigit() else body.local_by_name(name)
+        live = body.live_blocks()
+        out = []
+        for l in locs:
+            for blk, si in body.defs.get(l, []):
+                if blk in live:
+                    d = sym.def_expr(blk, si)
+                    if d != e:
+                        out.append((ctx.guards_at(body, blk), d, blk))
+        if out:
+            return out
+    return [(ctx.guards_at(body, at_block), e, at_block)]
